@@ -195,7 +195,7 @@ func (fe *fontEntry) refFace() *hbref.Face {
 	if fe.hb == nil {
 		if data, err := corpus.Bytes(fe.rel); err == nil && hbref.FaceCount(data) > fe.index {
 			fe.hb = hbref.NewFace(data, fe.index)
-			if fe.hb.GlyphCount() > 0 && fe.face.Cmap != nil {
+			if fe.hb.GlyphCount() > 0 && fe.face.Cmap != nil && os.Getenv("C18_WORKER_CMAP_SAME") == "" {
 				mapping := map[rune]uint32{}
 				differs := false
 				probe := func(r rune) {
@@ -562,10 +562,14 @@ func referenceVerifies(fe *fontEntry, c *Case, whole []G) (ok, available bool) {
 	}
 	cmd := exec.Command(os.Args[0], "-test.run", "^TestRefVerifyWorker$", "-test.v")
 	cmd.Env = append(os.Environ(), "VERIF_OUT=", "C18_WORKER_CASE="+mustJSON(c))
+	if !fe.refCmapOverridden {
+		cmd.Env = append(cmd.Env, "C18_WORKER_CMAP_SAME=1") // the worker need not compare the character maps again
+	}
 	out, _ := cmd.CombinedOutput()
-	// the verdict is about this input only if the reference shaped it to the glyphs the port did
-	// (glyph ids and clusters of the whole text); otherwise (fonts the loaders read differently,
-	// reference-version skew, C05's findings) it is a verdict about something else
+	// a passed verification is about this input only if the reference shaped it to the glyphs the
+	// port did (glyph ids and clusters of the whole text); otherwise (fonts the loaders read
+	// differently, reference-version skew, C05's findings) the reference verified something else
+	comparable := true
 	if i := strings.Index(string(out), "REF_GLYPHS "); i >= 0 {
 		line := string(out)[i+len("REF_GLYPHS "):]
 		if j := strings.IndexByte(line, '\n'); j >= 0 {
@@ -575,10 +579,14 @@ func referenceVerifies(fe *fontEntry, c *Case, whole []G) (ok, available bool) {
 		for _, g := range whole {
 			fmt.Fprintf(&sb, "%d=%d,", g.ID, g.Cluster)
 		}
-		if strings.TrimSpace(line) != sb.String() {
-			ev.Label("reference_verdict_not_comparable")
+		comparable = strings.TrimSpace(line) == sb.String()
+	}
+	if !comparable {
+		if strings.Contains(string(out), "REF_VERIFY_OK") {
+			ev.Label("reference_passes_on_other_glyphs_verdict_not_used")
 			return false, false
 		}
+		ev.Label("reference_fails_on_other_glyphs")
 	}
 	switch {
 	case strings.Contains(string(out), "REF_VERIFY_OK"):
